@@ -452,6 +452,9 @@ func (l *loader) loadSignal(pSig *acmelibv1.Signal) (Signal, error) {
 			return nil, err
 		}
 		sig = muxSig
+
+	default:
+		return nil, &ErrMissingOneofField{OneofField: "signal"}
 	}
 
 	switch pSig.SendType {
